@@ -486,12 +486,20 @@ func runDC(r *runner, work *choice.Source, repair, forceBig bool) (fs []Finding)
 			r.st.probe("dc.random_search_normals")
 		}
 	}
+	// ... and the remaining numeric options of the contouring itself (pure parameters)
+	var cubeMargin, svEps, l2 float64
+	if work.Chance(1, 4) {
+		cubeMargin = []float64{0, 0.1, 0.3}[work.Intn(3)]
+		svEps = []float64{0, 0.01, 0.3}[work.Intn(3)]
+		l2 = []float64{0, 0.1, 2}[work.Intn(3)]
+	}
 	r.st.Workers = v.Workers
 	mk := func(s model3d.Solid, bufSize, gos int) *model3d.DualContouring {
 		e := est
 		e.Solid = s
 		return &model3d.DualContouring{S: e, Delta: shape.Delta, Repair: repair, Clip: clip,
-			NoJitter: noJitter, TriangleMode: mode, BufferSize: bufSize, MaxGos: gos}
+			NoJitter: noJitter, TriangleMode: mode, BufferSize: bufSize, MaxGos: gos,
+			CubeMargin: cubeMargin, SingularValueEpsilon: svEps, L2Penalty: l2}
 	}
 	bufRows := nz
 	if buf != 0 {
@@ -704,6 +712,9 @@ func runRaster(r *runner, work *choice.Source) (fs []Finding) {
 			}
 		}
 		r.st.probe("raster.dyadic_closed")
+	}
+	if kind == 3 && work.Chance(1, 2) {
+		ras.LineWidth = []float64{0.5, 2, 5}[work.Intn(3)]
 	}
 	r.st.Workers = v.Workers
 	refSolid := &simsolid.Solid2{S: shape, Salt: salt}
